@@ -30,10 +30,10 @@ def cases(ctx):
         return hex_of(spec.commb_frame(rng, df if df is not None else rng.choice([20, 21]), fields))
 
     for pos in range(8):
-        bases = [[rng.choice(CODES) for _ in range(8)] for _ in range(nr)]
-        for code in range(64):
-            for base in bases:
-                # the same base string for the whole sweep: consecutive calls differ in one character only
+        for _b in range(nr):
+            # one base string for a whole sweep: consecutive calls differ in one character only
+            base = [rng.choice(CODES) for _ in range(8)]
+            for code in list(range(64)) + [rng.randrange(64) for _ in range(8)]:
                 codes = list(base)
                 codes[pos] = code
                 legal = code in LEGAL
